@@ -11,6 +11,7 @@ import Pastel.Model.Color
 import Pastel.Lemmas.Clamp
 import Pastel.Order
 import Pastel.FloatFns
+import Pastel.Lemmas.Quantize
 
 namespace Pastel.C07
 open Pastel Sc ScOrd
@@ -192,5 +193,76 @@ theorem interpolateAngle_shorter_arc (a b f : ℝ) (ha0 : 0 ≤ a) (ha : a < 360
 
 /-- On IEEE floats: a NaN fraction acts as fraction 1. -/
 theorem float_fraction_nan (x : Float) (h : Sc.isNaN x = true) : fraction x = 1 := fraction_nan x h
+
+/-! ### RGB mixing of 8-bit colours, as bytes -/
+
+/-- **RGB mixing of two 8-bit colours, as bytes** (exact arithmetic): each channel of the mix is
+the quantised linear interpolation of the operands' channel values. -/
+theorem mix_rgb_bytes (r1 g1 b1 r2 g2 b2 : UInt8) (a1 a2 f : ℝ) :
+    let m := mix .rgb (fromRgba8 r1 g1 b1 a1 : Color ℝ) (fromRgba8 r2 g2 b2 a2) f
+    (toRgba8 m).r = quantize (interpolate (chan r1) (chan r2) f) ∧
+    (toRgba8 m).g = quantize (interpolate (chan g1) (chan g2) f) ∧
+    (toRgba8 m).b = quantize (interpolate (chan b1) (chan b2) f) := by
+  intro m
+  have e : m = fromRgba8 (quantize (interpolate (chan r1) (chan r2) f)) (quantize (interpolate (chan g1) (chan g2) f))
+      (quantize (interpolate (chan b1) (chan b2) f))
+      (interpolate (toRgbaFloat (fromRgba8 r1 g1 b1 a1 : Color ℝ)).alpha (toRgbaFloat (fromRgba8 r2 g2 b2 a2 : Color ℝ)).alpha f) := by
+    show mix .rgb _ _ f = _
+    unfold mix fromRgbaFloat
+    simp only [fromRgba8_toRgbaFloat]
+  rw [e]
+  exact hsl_roundtrip_real _ _ _ _
+
+/-- Hence, for a fraction in `[0,1]`, **every channel of an RGB mix lies between the operands'
+channels**; fraction 0 returns the first operand's bytes and fraction 1 the second's exactly; a
+colour mixed with itself keeps its bytes. -/
+theorem mix_rgb_between (r1 g1 b1 r2 g2 b2 : UInt8) (a1 a2 f : ℝ) (h0 : 0 ≤ f) (h1 : f ≤ 1) :
+    let m := mix .rgb (fromRgba8 r1 g1 b1 a1 : Color ℝ) (fromRgba8 r2 g2 b2 a2) f
+    (min r1.toNat r2.toNat ≤ (toRgba8 m).r.toNat ∧ (toRgba8 m).r.toNat ≤ max r1.toNat r2.toNat) ∧
+    (min g1.toNat g2.toNat ≤ (toRgba8 m).g.toNat ∧ (toRgba8 m).g.toNat ≤ max g1.toNat g2.toNat) ∧
+    (min b1.toNat b2.toNat ≤ (toRgba8 m).b.toNat ∧ (toRgba8 m).b.toNat ≤ max b1.toNat b2.toNat) := by
+  intro m
+  obtain ⟨er, eg, eb⟩ := mix_rgb_bytes r1 g1 b1 r2 g2 b2 a1 a2 f
+  have key : ∀ x y : UInt8, min x.toNat y.toNat ≤ (quantize (interpolate (chan x) (chan y) f)).toNat ∧
+      (quantize (interpolate (chan x) (chan y) f)).toNat ≤ max x.toNat y.toNat := by
+    intro x y
+    have hb := interpolate_between (chan x) (chan y) f h0 h1
+    have hmono : ∀ p q : UInt8, p.toNat ≤ q.toNat → chan p ≤ chan q := by
+      intro p q hpq; unfold chan
+      have : (p.toNat : ℝ) ≤ q.toNat := by exact_mod_cast hpq
+      linarith [div_le_div_of_nonneg_right this (by norm_num : (0:ℝ) ≤ 255)]
+    rcases Nat.le_total x.toNat y.toNat with hxy | hxy
+    · have hc := hmono x y hxy
+      rw [min_eq_left hc, max_eq_right hc] at hb
+      have := quantize_between _ x y hb.1 hb.2
+      rw [Nat.min_eq_left hxy, Nat.max_eq_right hxy]; exact this
+    · have hc := hmono y x hxy
+      rw [min_eq_right hc, max_eq_left hc] at hb
+      have := quantize_between _ y x hb.1 hb.2
+      rw [Nat.min_eq_right hxy, Nat.max_eq_left hxy]; exact this
+  show (_ ∧ _) ∧ (_ ∧ _) ∧ (_ ∧ _)
+  rw [er, eg, eb]
+  exact ⟨key r1 r2, key g1 g2, key b1 b2⟩
+
+theorem mix_rgb_endpoints (r1 g1 b1 r2 g2 b2 : UInt8) (a1 a2 : ℝ) :
+    (let m := mix .rgb (fromRgba8 r1 g1 b1 a1 : Color ℝ) (fromRgba8 r2 g2 b2 a2) 0
+     ((toRgba8 m).r, (toRgba8 m).g, (toRgba8 m).b) = (r1, g1, b1)) ∧
+    (let m := mix .rgb (fromRgba8 r1 g1 b1 a1 : Color ℝ) (fromRgba8 r2 g2 b2 a2) 1
+     ((toRgba8 m).r, (toRgba8 m).g, (toRgba8 m).b) = (r2, g2, b2)) := by
+  constructor
+  · obtain ⟨er, eg, eb⟩ := mix_rgb_bytes r1 g1 b1 r2 g2 b2 a1 a2 0
+    show (_, _, _) = _
+    rw [er, eg, eb, interpolate_zero, interpolate_zero, interpolate_zero, quantize_chan, quantize_chan, quantize_chan]
+  · obtain ⟨er, eg, eb⟩ := mix_rgb_bytes r1 g1 b1 r2 g2 b2 a1 a2 1
+    show (_, _, _) = _
+    rw [er, eg, eb, interpolate_one, interpolate_one, interpolate_one, quantize_chan, quantize_chan, quantize_chan]
+
+theorem mix_rgb_self (r g b : UInt8) (a1 a2 f : ℝ) :
+    let m := mix .rgb (fromRgba8 r g b a1 : Color ℝ) (fromRgba8 r g b a2) f
+    ((toRgba8 m).r, (toRgba8 m).g, (toRgba8 m).b) = (r, g, b) := by
+  intro m
+  obtain ⟨er, eg, eb⟩ := mix_rgb_bytes r g b r g b a1 a2 f
+  show (_, _, _) = _
+  rw [er, eg, eb, interpolate_self, interpolate_self, interpolate_self, quantize_chan, quantize_chan, quantize_chan]
 
 end Pastel.C07
